@@ -1,6 +1,6 @@
 // `bs` executor: N keep-alive connections opened at once against a fresh server; every one of them
 // must get its answer while all the others stay open (nobody closes until the end).
-// case line:  bs <u|t> <N> <handlers>
+// case line:  bs <u|t> <N> <handlers> [silent=<k>]
 // observation: answered=<k> of=<N> wrong=<k> delivered=<k>
 use std::io::{Read, Write};
 use std::sync::atomic::{AtomicBool, AtomicUsize, Ordering};
@@ -32,6 +32,21 @@ pub fn run_case(f: &[&str]) -> String {
                 }
             }
         }));
+    }
+    // silent=<k>: k further connections are opened FIRST and send nothing at all while the N others are served
+    // (a connection that has not yet spoken must not hold up the ones behind it)
+    let silent: usize = f.iter().find_map(|x| x.strip_prefix("silent=")).map(|x| x.parse().unwrap()).unwrap_or(0);
+    let mut silent_conns: Vec<crate::cv::Conn> = Vec::new();
+    for _ in 0..silent {
+        let c = if kind == "t" {
+            crate::cv::Conn::T(std::net::TcpStream::connect(server.server_addr().to_ip().unwrap()).unwrap())
+        } else {
+            crate::cv::Conn::U(std::os::unix::net::UnixStream::connect(&path).unwrap())
+        };
+        silent_conns.push(c);
+    }
+    if silent > 0 {
+        std::thread::sleep(Duration::from_millis(30));
     }
     let mut conns: Vec<crate::cv::Conn> = Vec::new();
     for _ in 0..n {
@@ -87,6 +102,7 @@ pub fn run_case(f: &[&str]) -> String {
         let _ = h.join();
     }
     drop(conns);
+    drop(silent_conns);
     let d = delivered.load(Ordering::SeqCst);
     drop(server);
     let _ = std::fs::remove_file(&path);
